@@ -1,4 +1,5 @@
     // ===== src/xz/reader.rs : parsers =====
+    use sha2::Digest;
 
     // thin accessors so that writer-side harnesses (module xz::writer::verif_kani) can call the private parsers
     pub(crate) fn rd_stream_header(b: &[u8]) -> Result<CheckType> {
@@ -135,7 +136,7 @@
             }
             Err(e) => {
                 assert!(!(crc_ok && magic_ok));
-                assert!(e.kind() == std::io::ErrorKind::InvalidData);
+                assert!(vk::kind_of(&e) == vk::Kind::InvalidData);
             }
         }
         crate::vcover!(crc_ok && magic_ok);
@@ -161,7 +162,7 @@
             }
             Err(e) => {
                 assert!(!(magic_ok && flags_ok && crc_ok));
-                assert!(e.kind() == std::io::ErrorKind::InvalidData);
+                assert!(vk::kind_of(&e) == vk::Kind::InvalidData);
             }
         }
         crate::vcover!(magic_ok && flags_ok && crc_ok);
@@ -200,7 +201,7 @@
             Err(e) => {
                 assert!(tail_len != 0);
                 assert!(!(valid && p % 4 == 0));
-                assert!(e.kind() == std::io::ErrorKind::InvalidData || e.kind() == std::io::ErrorKind::UnexpectedEof);
+                assert!(vk::kind_of(&e) == vk::Kind::InvalidData || vk::kind_of(&e) == vk::Kind::Eof);
             }
         }
         if tail_len == 12 && p % 4 == 0 { crate::vcover!(valid); }
@@ -284,7 +285,7 @@
             }
             Err(e) => {
                 assert!(!zeros);
-                assert!(e.kind() == std::io::ErrorKind::InvalidData);
+                assert!(vk::kind_of(&e) == vk::Kind::InvalidData);
             }
         }
         crate::vcover!(need == 3 && zeros);
@@ -323,3 +324,258 @@
         assert!(r.consume_padding().is_err());
         core::mem::forget(r);
     }
+
+    // ---------------------------------------------------------------- block end / checksum / zero-length reads
+    static mut PREPARE_CALLS: usize = 0;
+    /// contract stub for XZReader::prepare_next_block (its real body builds the filter chain and an LZMA2 decoder):
+    /// here it stands for "the stream ends after this block" = the real function's None arm after a valid index/footer.
+    fn prepare_stub<'reader, R: Read + 'reader>(s: &mut XZReader<'reader, R>) -> Result<bool> {
+        unsafe { PREPARE_CALLS += 1; }
+        s.finished = true;
+        Ok(false)
+    }
+    static mut PAYLOAD_READS: usize = 0;
+    static mut PAYLOAD_POS: usize = 0;
+    /// payload-layer contract stub: stands for the filter chain + LZMA2Reader of one block: yields `len` bytes then 0.
+    struct PayloadStub { data: [u8; 4], len: usize }
+    impl Read for PayloadStub {
+        fn read(&mut self, out: &mut [u8]) -> Result<usize> {
+            unsafe {
+                PAYLOAD_READS += 1;
+                let avail = self.len - PAYLOAD_POS;
+                let n = if out.len() < avail { out.len() } else { avail };
+                out[..n].copy_from_slice(&self.data[PAYLOAD_POS..PAYLOAD_POS + n]);
+                PAYLOAD_POS += n;
+                Ok(n)
+            }
+        }
+    }
+    fn check_len(c: CheckType) -> usize { match c { CheckType::None => 0, CheckType::Crc32 => 4, CheckType::Crc64 => 8, CheckType::Sha256 => 32 } }
+    /// spec: the Check field for `data` (xz-file-format 3.4) with the dependency's checksum functions
+    fn spec_check(c: CheckType, data: &[u8], out: &mut [u8; 32]) {
+        match c {
+            CheckType::None => {}
+            CheckType::Crc32 => { let v = CRC32.checksum(data).to_le_bytes(); let mut i = 0; while i < 4 { out[i] = v[i]; i += 1; } }
+            CheckType::Crc64 => { let v = crate::xz::CRC64.checksum(data).to_le_bytes(); let mut i = 0; while i < 8 { out[i] = v[i]; i += 1; } }
+            CheckType::Sha256 => { let mut s = sha2::Sha256::new(); s.update(data); let v = s.finalize(); let mut i = 0; while i < 32 { out[i] = v[i]; i += 1; } }
+        }
+    }
+
+    /// C04.xz.block: XZReader::read in a block: the bytes handed to the caller are exactly the bytes fed to the
+    /// checksum; at the end of the block Ok ⇒ padding is zero ∧ stored Check = check_fn(bytes yielded); any other
+    /// stored value ⇒ Err(InvalidData). Source ends right after the Check field so acceptance shows as UnexpectedEof
+    /// from the *next* block header read.
+    fn xz_block_end(check: CheckType, pad: usize, n: usize) {
+        let data: [u8; 4] = vk::any();
+        let tail: [u8; 36] = vk::any();      // padding (0..3) + check field as stored in the file
+        let start: u64 = 1024 + ((4 - pad) % 4) as u64;
+        assert!(pad == ((4 - (start % 4)) % 4) as usize);
+        let clen = check_len(check);
+        let mut r = XZReader::new(vk::Src::<36>::new(tail, pad + clen), false);
+        r.stream_header = Some(StreamHeader { check_type: check });
+        r.checksum_calculator = Some(ChecksumCalculator::new(check));
+        r.blocks_processed = 1;
+        r.compressed_bytes_read.set(start);
+        unsafe { PAYLOAD_READS = 0; PAYLOAD_POS = 0; PREPARE_CALLS = 0; }
+        r.reader = Box::new(PayloadStub { data, len: n });
+        let mut out = [0u8; 8];
+        let got = r.read(&mut out[..8]);
+        assert!(matches!(got, Ok(k) if k == n));
+        let mut i = 0;
+        while i < n { assert!(out[i] == data[i]); i += 1; }
+        // second read: payload exhausted -> padding + check verification -> next block header (EOF)
+        let res = r.read(&mut out[..8]);
+        let mut want = [0u8; 32];
+        spec_check(check, &data[..n], &mut want);
+        let mut pad_ok = true;
+        let mut j = 0;
+        while j < pad { if tail[j] != 0 { pad_ok = false; } j += 1; }
+        let mut chk_ok = true;
+        let mut j = 0;
+        while j < clen { if tail[pad + j] != want[j] { chk_ok = false; } j += 1; }
+        match res {
+            Ok(k) => {
+                assert!(k == 0 && pad_ok && chk_ok);
+                assert!(unsafe { PREPARE_CALLS } == 1);
+                assert!(r.compressed_bytes_read.get() == start + (pad + clen) as u64);
+            }
+            Err(e) => {
+                assert!(!(pad_ok && chk_ok));
+                assert!(unsafe { PREPARE_CALLS } == 0);
+                assert!(vk::kind_of(&e) == vk::Kind::InvalidData);
+            }
+        }
+        crate::vcover!(pad_ok && chk_ok);
+        core::mem::forget(r);
+    }
+    #[kani::proof]
+    #[kani::unwind(6)]
+    #[kani::stub(crate::error_invalid_data, crate::vk::err_invalid_data)]
+    #[kani::stub(crate::error_eof, crate::vk::err_eof)]
+    #[kani::stub(XZReader::prepare_next_block, prepare_stub)]
+    fn c04_xz_block_end_none_p0() { xz_block_end(CheckType::None, 0, 2); }
+    #[kani::proof]
+    #[kani::unwind(6)]
+    #[kani::stub(crate::error_invalid_data, crate::vk::err_invalid_data)]
+    #[kani::stub(crate::error_eof, crate::vk::err_eof)]
+    #[kani::stub(XZReader::prepare_next_block, prepare_stub)]
+    fn c04_xz_block_end_none_p3() { xz_block_end(CheckType::None, 3, 1); }
+    #[kani::proof]
+    #[kani::unwind(8)]
+    #[kani::stub(crate::error_invalid_data, crate::vk::err_invalid_data)]
+    #[kani::stub(crate::error_eof, crate::vk::err_eof)]
+    #[kani::stub(XZReader::prepare_next_block, prepare_stub)]
+    fn c04_xz_block_end_crc32_p0() { xz_block_end(CheckType::Crc32, 0, 3); }
+    #[kani::proof]
+    #[kani::unwind(8)]
+    #[kani::stub(crate::error_invalid_data, crate::vk::err_invalid_data)]
+    #[kani::stub(crate::error_eof, crate::vk::err_eof)]
+    #[kani::stub(XZReader::prepare_next_block, prepare_stub)]
+    fn c04_xz_block_end_crc32_p1() { xz_block_end(CheckType::Crc32, 1, 2); }
+    #[kani::proof]
+    #[kani::unwind(8)]
+    #[kani::stub(crate::error_invalid_data, crate::vk::err_invalid_data)]
+    #[kani::stub(crate::error_eof, crate::vk::err_eof)]
+    #[kani::stub(XZReader::prepare_next_block, prepare_stub)]
+    fn c04_xz_block_end_crc32_p2() { xz_block_end(CheckType::Crc32, 2, 1); }
+    #[kani::proof]
+    #[kani::unwind(8)]
+    #[kani::stub(crate::error_invalid_data, crate::vk::err_invalid_data)]
+    #[kani::stub(crate::error_eof, crate::vk::err_eof)]
+    #[kani::stub(XZReader::prepare_next_block, prepare_stub)]
+    fn c04_xz_block_end_crc32_p3() { xz_block_end(CheckType::Crc32, 3, 2); }
+    #[kani::proof]
+    #[kani::unwind(10)]
+    #[kani::stub(crate::error_invalid_data, crate::vk::err_invalid_data)]
+    #[kani::stub(crate::error_eof, crate::vk::err_eof)]
+    #[kani::stub(XZReader::prepare_next_block, prepare_stub)]
+    fn c04_xz_block_end_crc64_p3() { xz_block_end(CheckType::Crc64, 3, 2); }
+    #[kani::proof]
+    #[kani::unwind(10)]
+    #[kani::stub(crate::error_invalid_data, crate::vk::err_invalid_data)]
+    #[kani::stub(crate::error_eof, crate::vk::err_eof)]
+    #[kani::stub(XZReader::prepare_next_block, prepare_stub)]
+    fn c04_xz_block_end_crc64_p0() { xz_block_end(CheckType::Crc64, 0, 1); }
+    #[kani::proof]
+    #[kani::unwind(34)]
+    #[kani::stub(crate::error_invalid_data, crate::vk::err_invalid_data)]
+    #[kani::stub(crate::error_eof, crate::vk::err_eof)]
+    #[kani::stub(XZReader::prepare_next_block, prepare_stub)]
+    fn c04_xz_block_end_sha256_p1() { xz_block_end(CheckType::Sha256, 1, 2); }
+
+    /// C07.zero: a zero-length read inside a block returns Ok(0) and disturbs nothing: the block stays open, nothing
+    /// is consumed from the source, the next read still yields the block's bytes.
+    #[kani::proof]
+    #[kani::unwind(10)]
+    #[kani::stub(crate::error_invalid_data, crate::vk::err_invalid_data)]
+    #[kani::stub(crate::error_eof, crate::vk::err_eof)]
+    #[kani::stub(XZReader::prepare_next_block, prepare_stub)]
+    fn c07_xz_zero_read_in_block() {
+        let data: [u8; 4] = vk::any();
+        let tail: [u8; 8] = vk::any();
+        let mut r = XZReader::new(vk::Src::<8>::new(tail, 8), false);
+        r.stream_header = Some(StreamHeader { check_type: CheckType::Crc32 });
+        r.checksum_calculator = Some(ChecksumCalculator::new(CheckType::Crc32));
+        r.blocks_processed = 1;
+        r.compressed_bytes_read.set(24);
+        unsafe { PAYLOAD_READS = 0; PAYLOAD_POS = 0; PREPARE_CALLS = 0; }
+        r.reader = Box::new(PayloadStub { data, len: 2 });
+        let mut out = [0u8; 4];
+        let z = r.read(&mut out[..0]);
+        assert!(matches!(z, Ok(0)));
+        assert!(r.checksum_calculator.is_some());
+        assert!(!r.finished);
+        assert!(r.compressed_bytes_read.get() == 24);
+        assert!(r.original_reader.borrow().pos == 0);
+        let got = r.read(&mut out[..4]);
+        assert!(matches!(got, Ok(2)));
+        assert!(out[0] == data[0] && out[1] == data[1]);
+        core::mem::forget(r);
+    }
+
+    /// C07.zero: zero-length read after the end of the stream / before the first byte.
+    #[kani::proof]
+    #[kani::unwind(10)]
+    #[kani::stub(crate::error_invalid_data, crate::vk::err_invalid_data)]
+    #[kani::stub(crate::error_eof, crate::vk::err_eof)]
+    #[kani::stub(XZReader::prepare_next_block, prepare_stub)]
+    fn c07_xz_zero_read_fresh_and_finished() {
+        let tail: [u8; 8] = vk::any();
+        let mut r = XZReader::new(vk::Src::<8>::new(tail, 8), false);
+        let mut out = [0u8; 1];
+        assert!(matches!(r.read(&mut out[..0]), Ok(0)));
+        assert!(r.original_reader.borrow().pos == 0);   // nothing consumed, nothing required
+        r.finished = true;
+        assert!(matches!(r.read(&mut out[..0]), Ok(0)));
+        assert!(matches!(r.read(&mut out[..1]), Ok(0)));
+        assert!(r.original_reader.borrow().pos == 0);
+        core::mem::forget(r);
+    }
+
+    fn vec_cap_stub<T>(cap: usize) -> Vec<T> {
+        // allocation bound of C06: a parser may pre-allocate a small constant (<= 64 KiB) or in proportion to its input,
+        // never an amount taken from an unchecked header field
+        assert!(cap.saturating_mul(core::mem::size_of::<T>()) <= 65536, "pre-allocation taken from an unchecked input field");
+        Vec::new()
+    }
+    /// C06.xz.parse (allocation bound, D12): an index whose record count is any value of encoded length k, followed by
+    /// `extra` arbitrary bytes and then end of input: Index::parse returns (no panic / abort) and never pre-allocates
+    /// more than 4x the bytes it was given.
+    fn xz_index_count(k: usize, extra: usize) {
+        use crate::xz::verif_kani::mbi_in_class;
+        let count: u64 = vk::any();
+        vk::assume(mbi_in_class(count, k));
+        let mut buf = [0u8; 16];
+        let off = spec_mbi_put(&mut buf, 0, count, k);
+        let rest: [u8; 4] = vk::any();
+        let mut i = 0;
+        while i < extra { buf[off + i] = rest[i]; i += 1; }
+        let mut r = &buf[..off + extra];
+        let res = Index::parse(&mut r);
+        if let Ok(idx) = res {
+            assert!(idx.number_of_records as usize == idx.records.len());
+            assert!(idx.number_of_records <= 1);
+        }
+    }
+    #[kani::proof]
+    #[kani::unwind(6)]
+    #[kani::stub(crate::error_invalid_data, crate::vk::err_invalid_data)]
+    #[kani::stub(crate::error_eof, crate::vk::err_eof)]
+    #[kani::stub(alloc::vec::Vec::with_capacity, vec_cap_stub)]
+    fn c06_xz_index_count_k1_e0() { xz_index_count(1, 0); }
+    #[kani::proof]
+    #[kani::unwind(6)]
+    #[kani::stub(crate::error_invalid_data, crate::vk::err_invalid_data)]
+    #[kani::stub(crate::error_eof, crate::vk::err_eof)]
+    #[kani::stub(alloc::vec::Vec::with_capacity, vec_cap_stub)]
+    fn c06_xz_index_count_k1_e4() { xz_index_count(1, 4); }
+    #[kani::proof]
+    #[kani::unwind(6)]
+    #[kani::stub(crate::error_invalid_data, crate::vk::err_invalid_data)]
+    #[kani::stub(crate::error_eof, crate::vk::err_eof)]
+    #[kani::stub(alloc::vec::Vec::with_capacity, vec_cap_stub)]
+    fn c06_xz_index_count_k2_e0() { xz_index_count(2, 0); }
+    #[kani::proof]
+    #[kani::unwind(6)]
+    #[kani::stub(crate::error_invalid_data, crate::vk::err_invalid_data)]
+    #[kani::stub(crate::error_eof, crate::vk::err_eof)]
+    #[kani::stub(alloc::vec::Vec::with_capacity, vec_cap_stub)]
+    fn c06_xz_index_count_k2_e3() { xz_index_count(2, 3); }
+    #[kani::proof]
+    #[kani::unwind(6)]
+    #[kani::stub(crate::error_invalid_data, crate::vk::err_invalid_data)]
+    #[kani::stub(crate::error_eof, crate::vk::err_eof)]
+    #[kani::stub(alloc::vec::Vec::with_capacity, vec_cap_stub)]
+    fn c06_xz_index_count_k5_e2() { xz_index_count(5, 2); }
+    #[kani::proof]
+    #[kani::unwind(11)]
+    #[kani::stub(crate::error_invalid_data, crate::vk::err_invalid_data)]
+    #[kani::stub(crate::error_eof, crate::vk::err_eof)]
+    #[kani::stub(alloc::vec::Vec::with_capacity, vec_cap_stub)]
+    fn c06_xz_index_count_k9_e0() { xz_index_count(9, 0); }
+    #[kani::proof]
+    #[kani::unwind(11)]
+    #[kani::stub(crate::error_invalid_data, crate::vk::err_invalid_data)]
+    #[kani::stub(crate::error_eof, crate::vk::err_eof)]
+    #[kani::stub(alloc::vec::Vec::with_capacity, vec_cap_stub)]
+    fn c06_xz_index_count_k9_e4() { xz_index_count(9, 4); }
